@@ -75,6 +75,15 @@ CHECKS = {
             "Design: all interleavings of runner, 2-3 consumers (reading / stopped), spawn and despawn at every point, 2-4 messages, "
             "capacity 1: order, exactly-once, no send on closed channel, delivered-while-connected, despawn completes. Code: the TLC "
             "lasso forced on the real fan-out in several shapes, seeded random life-cycle histories, relay with concurrent emitters."),
+    "C16": ("exploration", "DESIGN.md 5/C16",
+            "TLA+ spec of the three goroutines of a device with their mutexes, context and WaitGroup, every shared access as a "
+            "begin/end pair (spec/Lifecycle.tla) model-checked by TLC for NoRace (lockset), NoLeftover, Terminates over all "
+            "interleavings; life-cycle scenarios run on the real device (LED goroutine against a fake OpenRGB server, MIDI input) built "
+            "with Go's race detector, traces validated by TLC (spec/LedTrace.tla), race reports and isolation runs judged by "
+            "spec/LifecycleHist.tla",
+            "exploration: the race detector is a dynamic analysis of the schedules that were run; the TLA+ lockset invariant finds races in "
+            "the design and is bound to the code only through those runs. 'promptly' = 2 s (measured 10 ms).",
+            "Disconnect with keys held / MIDI input arriving / LED connecting or mid-cycle at seeded moments; 8 devices concurrently vs alone."),
     "C17": ("model_checking", "DESIGN.md 5/C17",
             "TLA+ spec of the frame as a function of playing state, note tracker, MIDI-input tracker and LED layout (spec/Led.tla on top "
             "of DeviceSys); TLC enumerates the bounded model (MC_led), tours over every transition are replayed on the real device whose "
